@@ -23,8 +23,8 @@ type c07Input struct {
 	Stack   string `json:"stack"`
 	Suite   uint16 `json:"suite"`
 	Policy  int    `json:"policy"`
-	Chain   string `json:"chain"` // none | cli | cli-untrusted | cli-expired | cli-wrongeku | cli-sig
-	CV      string `json:"cv"`    // ok | missing | wrong-key | other-transcript | corrupt
+	Chain   string `json:"chain"`             // none | cli | cli-untrusted | cli-expired | cli-wrongeku | cli-sig
+	CV      string `json:"cv"`                // ok | missing | wrong-key | other-transcript | corrupt
 	Policy2 int    `json:"policy2,omitempty"` // resume: policy of the second configuration (shares the cache)
 	Resume  bool   `json:"resume,omitempty"`
 }
